@@ -250,6 +250,9 @@ def execute(sc, choices=None, lenient=False):
                     c['sleeps'] = 0
                     c['abandoned_at'] = None
                     active_from.setdefault(si, sim.now)
+                    inf_before = st.get('recover') and k == 0 and getattr(
+                        getattr(bucket, '_rate_tracker', None), '_current_rate', None) \
+                        == float('inf')
                     try:
                         data = stream.read(amt)
                         deliveries.append((sim.now, sim.stamp(), si, len(data),
@@ -270,6 +273,16 @@ def execute(sc, choices=None, lenient=False):
                         reading[si] = False
                     if st.get('recover'):
                         recover_sleeps.append(c['sleeps'])
+                        if inf_before and c['sleeps'] and coord.exception is None:
+                            # two consumptions at one instant left an infinite
+                            # rate behind: it says nothing about the history, so
+                            # a read far below the limit after a long idle gap
+                            # is admitted at once
+                            violations.append(['C13', 'delayed-below-limit',
+                                               'after a long idle gap a read of a tenth of the '
+                                               'limit was delayed because the tracked rate was '
+                                               'still infinite (two earlier consumptions at one '
+                                               'instant)', {'variant': 'infinite-rate'}])
                     if c['sleeps'] > 1:
                         violations.append(['C13', 'multiple-waits',
                                            'one read of stream %d slept %d times'
